@@ -6,6 +6,8 @@ set -u
 PID=$1; NAME=${2:-$PID}; shift; shift || true
 CHECKS=${*:-$PID}
 OUT=${SEED_OUT:-/tmp/seed-$PID-out}
+# the agents' scratch output directories do not survive a fresh restore: fall back to the kept copy
+[ -f $OUT/patch.diff ] || OUT=/verif/seeded/$NAME
 W=/tmp/seedchk-$NAME
 [ -f $OUT/patch.diff ] || { echo "no patch for $PID"; exit 2; }
 git -C /repo worktree remove --force $W >/dev/null 2>&1
@@ -19,9 +21,11 @@ D1=$(PYTHONPATH=$W timeout 300 /venv/bin/python $OUT/demo.py >/tmp/seedchk-$NAME
 cd /verif
 echo "tests-with-change: $T | demo without change exit=$D0 | demo with change exit=$D1"
 mkdir -p /verif/seeded/$NAME
-cp $OUT/patch.diff /verif/seeded/$NAME/patch.diff
-cp $OUT/demo.py /verif/seeded/$NAME/demo.py
-[ -f $OUT/notes.md ] && cp $OUT/notes.md /verif/seeded/$NAME/notes.md
+if [ "$OUT" != "/verif/seeded/$NAME" ]; then
+  cp $OUT/patch.diff /verif/seeded/$NAME/patch.diff
+  cp $OUT/demo.py /verif/seeded/$NAME/demo.py
+  [ -f $OUT/notes.md ] && cp $OUT/notes.md /verif/seeded/$NAME/notes.md
+fi
 RES=""
 for C in $CHECKS; do
   cp evidence/$C.json /tmp/seedchk-$NAME.$C.evidence.bak 2>/dev/null
